@@ -795,10 +795,33 @@ func ruleR20_1(c *Check) {
 					okC = false
 					continue
 				}
-				if i == 0 && !(se.Low == nil && se.High != nil) {
+				// bounds as linear forms in len(<the key sliced>), looking through locals (n := len(k)-8)
+				base, isId := unparen(se.X).(*ast.Ident)
+				if !isId {
+					okC = false
+					continue
+				}
+				isLen := func(e ast.Expr) bool {
+					c, ok := e.(*ast.CallExpr)
+					if !ok || !isBuiltin(w, c, "len") || len(c.Args) != 1 {
+						return false
+					}
+					id, ok := unparen(c.Args[0]).(*ast.Ident)
+					return ok && w.Use(id) == w.Use(base)
+				}
+				lin := func(e ast.Expr) (int64, int64, bool) {
+					if e == nil {
+						return 0, 0, false
+					}
+					return w.linear(ck, e, isLen, 0)
+				}
+				cut := func(e ast.Expr) bool { a, b, ok := lin(e); return ok && a == 1 && b == -8 }
+				end := func(e ast.Expr) bool { a, b, ok := lin(e); return e == nil || (ok && a == 1 && b == 0) }
+				zero := func(e ast.Expr) bool { a, b, ok := lin(e); return e == nil || (ok && a == 0 && b == 0) }
+				if i == 0 && !(zero(se.Low) && se.High != nil && cut(se.High)) {
 					okC = false
 				}
-				if i == 1 && !(se.Low != nil && se.High == nil) {
+				if i == 1 && !(se.Low != nil && cut(se.Low) && end(se.High)) {
 					okC = false
 				}
 			}
@@ -863,7 +886,124 @@ func ruleR20_4(c *Check) {
 	r.Check(v >= 2+5+5+10, nil, "maxHeaderSize bounds the varint header", nil, "maxHeaderSize is too small for 2 bytes + two uvarint32 + one uvarint64")
 }
 
+func ruleR20_5(c *Check) {
+	w := c.W
+	r := c.Rule("R20.5", "E7", 4, "y.sizeVarint counts the bytes binary.PutUvarint writes: one per 7-bit group — the value is shifted right by exactly 7 per counted byte and counting goes on exactly while a further group is non-empty (x >= 0x80 before the shift, equivalently x != 0 after it); ValueStruct.Encode/EncodeTo write ExpiresAt with PutUvarint and Decode reads it with Uvarint",
+		"EncodedSize sizes the arena slot and the table entry; Decode takes the value as 'the rest of the slot': one byte too many appends a garbage byte to the value, one too few cuts it")
+	f := w.F("y.sizeVarint")
+	var x types.Object
+	if ps := f.Decl.Type.Params; ps != nil && len(ps.List) == 1 && len(ps.List[0].Names) == 1 {
+		x = w.Info.Defs[ps.List[0].Names[0]]
+	}
+	isX := func(e ast.Expr) bool { id, ok := unparen(e).(*ast.Ident); return ok && x != nil && w.Use(id) == x }
+	// the shift
+	var shift ast.Node
+	shiftBy := int64(-1)
+	f.walk(func(n ast.Node) bool {
+		as, ok := n.(*ast.AssignStmt)
+		if !ok || len(as.Lhs) != 1 || len(as.Rhs) != 1 || !isX(as.Lhs[0]) {
+			return true
+		}
+		switch as.Tok {
+		case token.SHR_ASSIGN:
+			if v, isC := w.constInt(as.Rhs[0]); isC {
+				shift, shiftBy = as, v
+			}
+		case token.ASSIGN:
+			if be, ok := unparen(as.Rhs[0]).(*ast.BinaryExpr); ok && be.Op == token.SHR && isX(be.X) {
+				if v, isC := w.constInt(be.Y); isC {
+					shift, shiftBy = as, v
+				}
+			}
+		}
+		return true
+	})
+	r.Check(shift != nil && shiftBy == 7, f, "seven bits per byte", shift, "sizeVarint shifts by "+itoa(shiftBy)+", a varint byte carries 7 bits")
+	if shift == nil {
+		return
+	}
+	// the continuation condition of the loop, relative to the shift
+	var loop *ast.ForStmt
+	for p := w.parentOf(shift); p != nil; p = w.parentOf(p) {
+		if fs, ok := p.(*ast.ForStmt); ok {
+			loop = fs
+			break
+		}
+	}
+	r.Check(loop != nil, f, "groups are counted in a loop", shift, "the shift is not inside a loop")
+	if loop == nil {
+		return
+	}
+	okCont := false
+	why := "no continuation test found"
+	if loop.Cond != nil {
+		// for x >= 0x80 { x >>= 7; n++ } with n starting at 1
+		if op, ok := w.cmpRoles(loop.Cond, true, isX, func(e ast.Expr) bool { _, isC := w.constInt(e); return isC }); ok {
+			be := unparen(loop.Cond).(*ast.BinaryExpr)
+			cv, isC := w.constInt(be.Y)
+			if !isC {
+				cv, _ = w.constInt(be.X)
+			}
+			okCont = (op == token.GEQ && cv == 0x80) || (op == token.GTR && cv == 0x7f)
+			why = "the loop continues while x " + op.String() + " " + itoa(cv) + "; a further byte is needed exactly while x >= 128"
+			// one byte is counted before the loop
+			start := false
+			f.walk(func(n ast.Node) bool {
+				if as, ok := n.(*ast.AssignStmt); ok && len(as.Rhs) == 1 && n.Pos() < loop.Pos() {
+					if v, isC := w.constInt(as.Rhs[0]); isC && v == 1 {
+						start = true
+					}
+				}
+				return true
+			})
+			if okCont && !start {
+				okCont, why = false, "the count does not start at 1 before the `x >= 0x80` loop"
+			}
+		}
+	} else {
+		// for { n++; x >>= 7; if x == 0 { break } }
+		ast.Inspect(loop.Body, func(n ast.Node) bool {
+			b, ok := n.(*ast.BranchStmt)
+			if !ok || b.Tok != token.BREAK {
+				return true
+			}
+			for _, g := range w.Guards(f, b) {
+				if eqOf(g, true, isX, w.isConst(0)) {
+					okCont = b.Pos() > shift.Pos()
+					why = "the loop is left on x == 0 tested before the shift"
+				}
+			}
+			return true
+		})
+	}
+	r.Check(okCont, f, "counting continues exactly while another 7-bit group is non-empty", loop, why)
+	// one increment per iteration
+	incs := 0
+	ast.Inspect(loop.Body, func(n ast.Node) bool {
+		if s, ok := n.(*ast.IncDecStmt); ok && s.Tok == token.INC {
+			incs++
+		}
+		return true
+	})
+	r.Check(incs == 1, f, "one byte counted per group", loop, "expected exactly one n++ in the loop body")
+	// the codec uses the standard uvarint for ExpiresAt
+	for _, name := range []string{"y.ValueStruct.Encode", "y.ValueStruct.EncodeTo"} {
+		g := w.F(name)
+		ok := false
+		g.walk(func(n ast.Node) bool {
+			if call, isCall := n.(*ast.CallExpr); isCall {
+				if fn, _ := w.Callee(call).(*types.Func); fn != nil && fn.Name() == "PutUvarint" && w.mentions(call, w.Field("y.ValueStruct.ExpiresAt")) {
+					ok = true
+				}
+			}
+			return true
+		})
+		r.Check(ok, g, "ExpiresAt written with binary.PutUvarint", nil, name+" does not write ExpiresAt with PutUvarint")
+	}
+}
+
 func propC20(c *Check) {
+	ruleR20_5(c)
 	ruleR20_1(c)
 	ruleR16_1(c)
 	ruleR20_3(c)
